@@ -452,3 +452,20 @@ def written_attrs(fn, module_names=()) -> dict:
             if r:
                 out[r] += 1
     return dict(out)
+
+
+def loop_exits(fn) -> int:
+    """number of places where a loop of the function is left or an iteration is cut short (break / continue; the flag loops the
+    normal form makes out of any(...) aside)"""
+    n = 0
+    for node in ast.walk(fn):
+        if isinstance(node, (ast.For, ast.While)):
+            synthetic = any(isinstance(x, ast.Assign) and isinstance(x.targets[0], ast.Name) and x.targets[0].id.startswith('_any_')
+                            for st in node.body for x in ast.walk(st))
+            if synthetic:
+                continue
+            for st in node.body:
+                for x in ast.walk(st):
+                    if isinstance(x, (ast.Break, ast.Continue)):
+                        n += 1
+    return n
